@@ -83,7 +83,7 @@ fn probe(
     key: &str,
     expected: &[usize],
     nq: usize,
-    reference: &ArrayD<f64>,
+    reference: Option<&ArrayD<f64>>,
     call: &dyn Fn(ArrayViewMutD<f64>) -> CallRes,
     case: &dyn Fn(Vec<(&str, Json)>) -> Json,
 ) {
@@ -126,8 +126,10 @@ fn probe(
         }
         if vname == "correct" {
             match res {
+                // the allocating variant itself panics / fails for this query (NaN): nothing to compare
+                Ok(Ok(())) if reference.is_none() => out.count("correct_shape_ok_but_allocating_variant_is_not", 1),
                 Ok(Ok(())) => {
-                    let want: Vec<f64> = reference.iter().cloned().collect();
+                    let want: Vec<f64> = reference.unwrap().iter().cloned().collect();
                     let same = want.len() == inside.len() && want.iter().zip(&inside).all(|(a, b)| a.to_bits() == b.to_bits() || (a.is_nan() && b.is_nan()));
                     if !same {
                         let left = inside.iter().filter(|v| v.to_bits() == POISON.to_bits()).count();
@@ -164,6 +166,7 @@ fn probe_failing_batch(
     key: &str,
     expected: &[usize],
     alloc_is_err: bool,
+    bad: &str,
     call: &dyn Fn(ArrayViewMutD<f64>) -> CallRes,
     case: &dyn Fn(Vec<(&str, Json)>) -> Json,
 ) {
@@ -178,13 +181,13 @@ fn probe_failing_batch(
         // Ok => every element overwritten, and the same verdict as the allocating variant
         if left > 0 || alloc_is_err {
             out.violate(
-                format!("{key}:failing-batch"),
+                format!("{key}:failing-batch({bad})"),
                 format!(
-                    "the *_into call returned Ok for a batch whose first element is out of range: {left} of {} buffer elements were never written{}",
+                    "the *_into call returned Ok for a batch whose first element is {bad}: {left} of {} buffer elements were never written{}",
                     buf.len(),
-                    if alloc_is_err { "; the allocating variant returns Err" } else { "" }
+                    if alloc_is_err { "; the allocating variant does not return Ok" } else { "" }
                 ),
-                case(vec![("batch", Json::str("first element out of range, the rest in range"))]),
+                case(vec![("batch", Json::str(&format!("first element {bad}, the rest in range")))]),
             );
         }
     }
@@ -214,6 +217,9 @@ struct Job {
     strat: &'static str,
 }
 impl Job {
+    fn extrapolate(&self) -> bool {
+        self.strat.ends_with("+extrapolate")
+    }
     fn key(&self) -> String {
         format!("{}:{}:data{:?}:query{:?}", if self.two_d { "Interp2D" } else { "Interp1D" }, self.strat, self.data_shape, self.query_shape).replace(' ', "")
     }
@@ -235,40 +241,54 @@ macro_rules! with_1d {
                 let q = xs.clone().into_dimensionality::<$dq>().unwrap();
                 let ip = nimc::valid_build!($out, Interp1DBuilder::new(d).strategy($strat).build(), return);
                 let reference = ip.interp_array(&q).expect("in range").into_dyn();
+                let reference = Some(&reference);
                 let key = format!("{}:{}x{}", job.key(), stringify!($d), stringify!($dq));
                 let case = |extra: Vec<(&str, Json)>| {
                     let mut v = vec![("call", Json::str("Interp1D::interp_array_into")), ("data_dim", Json::str(stringify!($d))), ("query_dim", Json::str(stringify!($dq))), ("data_shape", Json::usizes(&job.data_shape)), ("query_shape", Json::usizes(&job.query_shape)), ("strategy", Json::str(job.strat))];
                     v.extend(extra);
                     Json::obj(v)
                 };
-                probe($out, &key, &expected, nq, &reference, &|win: ArrayViewMutD<f64>| -> CallRes {
+                probe($out, &key, &expected, nq, reference, &|win: ArrayViewMutD<f64>| -> CallRes {
                     let w = win.into_dimensionality().ok()?;
                     Some(catch(|| ip.interp_array_into(&q, w)))
                 }, &case);
                 if q.len() >= 2 {
-                    let mut qbad = q.clone();
-                    *qbad.iter_mut().next().unwrap() = -5.0;
-                    let alloc_is_err = matches!(catch(|| ip.interp_array(&qbad)), Ok(Err(_)));
-                    probe_failing_batch($out, &key, &expected, alloc_is_err, &|win: ArrayViewMutD<f64>| -> CallRes {
-                        let w = win.into_dimensionality().ok()?;
-                        Some(catch(|| ip.interp_array_into(&qbad, w)))
-                    }, &case);
+                    for (bad, name) in [(-5.0, "out of range"), (f64::NAN, "NaN")] {
+                        if job.extrapolate() && !bad.is_nan() {
+                            continue; // not a failing batch when extrapolating
+                        }
+                        let mut qbad = q.clone();
+                        *qbad.iter_mut().next().unwrap() = bad;
+                        let alloc_is_err = !matches!(catch(|| ip.interp_array(&qbad)), Ok(Ok(_)));
+                        probe_failing_batch($out, &key, &expected, alloc_is_err, name, &|win: ArrayViewMutD<f64>| -> CallRes {
+                            let w = win.into_dimensionality().ok()?;
+                            Some(catch(|| ip.interp_array_into(&qbad, w)))
+                        }, &case);
+                    }
                 }
                 $out.states += 1;
             }
         )*
         // interp_into: buffer = data shape without the first axis; queries inside an interval
         // and exactly at the last / first knot
-        for x in [1.25, (job.data_shape[0] - 1) as f64, 0.0] {
+        for x in [1.25, (job.data_shape[0] - 1) as f64, 0.0, -3.5, f64::NAN] {
+            if !job.extrapolate() && !(x >= 0.0) {
+                continue;
+            }
             let ip = nimc::valid_build!($out, Interp1DBuilder::new(data.clone()).strategy($strat).build(), return);
-            let reference = ip.interp(x).expect("in range");
+            // a NaN query makes the allocating variant panic (extrapolating lookup): no reference then
+            let reference = match catch(|| ip.interp(x)) {
+                Ok(Ok(r)) => Some(r),
+                _ => None,
+            };
+            let reference = reference.as_ref();
             let key = format!("{}:interp_into(dyn,x={x})", job.key());
             let case = |extra: Vec<(&str, Json)>| {
                 let mut v = vec![("call", Json::str("Interp1D::interp_into")), ("query", Json::Num(x)), ("data_shape", Json::usizes(&job.data_shape)), ("strategy", Json::str(job.strat))];
                 v.extend(extra);
                 Json::obj(v)
             };
-            probe($out, &key, &job.data_shape[1..], 0, &reference, &|win: ArrayViewMutD<f64>| -> CallRes {
+            probe($out, &key, &job.data_shape[1..], 0, reference, &|win: ArrayViewMutD<f64>| -> CallRes {
                 Some(catch(|| ip.interp_into(x, win)))
             }, &case);
             $out.states += 1;
@@ -285,13 +305,14 @@ fn run_1d_static_interp_into(job: &Job, out: &mut JobOut) {
               for x in [1.25, (job.data_shape[0] - 1) as f64, 0.0] {
                 let ip = nimc::valid_build!(out, Interp1DBuilder::new(d.clone()).build(), return);
                 let reference = ip.interp(x).expect("in range").into_dyn();
+                let reference = Some(&reference);
                 let key = format!("{}:interp_into({},x={x})", job.key(), stringify!($d));
                 let case = |extra: Vec<(&str, Json)>| {
                     let mut v = vec![("call", Json::str("Interp1D::interp_into")), ("data_dim", Json::str(stringify!($d))), ("data_shape", Json::usizes(&job.data_shape))];
                     v.extend(extra);
                     Json::obj(v)
                 };
-                probe(out, &key, &job.data_shape[1..], 0, &reference, &|win: ArrayViewMutD<f64>| -> CallRes {
+                probe(out, &key, &job.data_shape[1..], 0, reference, &|win: ArrayViewMutD<f64>| -> CallRes {
                     let w = win.into_dimensionality().ok()?;
                     Some(catch(|| ip.interp_into(x, w)))
                 }, &case);
@@ -321,6 +342,8 @@ fn run_1d(job: &Job, out: &mut JobOut) {
     }
     match job.strat {
         "Linear" => all!(Linear::new()),
+        "Linear+extrapolate" => all!(Linear::new().extrapolate(true)),
+        "CubicSpline+extrapolate" => all!(CubicSpline::new().extrapolate(true)),
         _ => all!(CubicSpline::new()),
     }
     if job.strat == "Linear" && job.query_shape.len() == 1 {
@@ -343,26 +366,28 @@ fn run_2d(job: &Job, out: &mut JobOut) {
                 let qy = ys.clone().into_dimensionality::<$dq>().unwrap();
                 let ip = nimc::valid_build!(out, Interp2DBuilder::new(d).strategy(Bilinear::new()).build(), return);
                 let reference = ip.interp_array(&qx, &qy).expect("in range").into_dyn();
+                let reference = Some(&reference);
                 let key = format!("{}:{}x{}", job.key(), stringify!($d), stringify!($dq));
                 let case = |extra: Vec<(&str, Json)>| {
                     let mut v = vec![("call", Json::str("Interp2D::interp_array_into")), ("data_dim", Json::str(stringify!($d))), ("query_dim", Json::str(stringify!($dq))), ("data_shape", Json::usizes(&job.data_shape)), ("query_shape", Json::usizes(&job.query_shape))];
                     v.extend(extra);
                     Json::obj(v)
                 };
-                probe(out, &key, &expected, nq, &reference, &|win: ArrayViewMutD<f64>| -> CallRes {
+                probe(out, &key, &expected, nq, reference, &|win: ArrayViewMutD<f64>| -> CallRes {
                     let w = win.into_dimensionality().ok()?;
                     Some(catch(|| ip.interp_array_into(&qx, &qy, w)))
                 }, &case);
                 if qx.len() >= 2 {
-                    for which in 0..2 {
+                    for which in 0..4 {
                         let (mut bx, mut by) = (qx.clone(), qy.clone());
-                        if which == 0 {
-                            *bx.iter_mut().next().unwrap() = -5.0;
-                        } else {
-                            *by.iter_mut().next().unwrap() = 1e9;
-                        }
-                        let alloc_is_err = matches!(catch(|| ip.interp_array(&bx, &by)), Ok(Err(_)));
-                        probe_failing_batch(out, &key, &expected, alloc_is_err, &|win: ArrayViewMutD<f64>| -> CallRes {
+                        let name = match which {
+                            0 => { *bx.iter_mut().next().unwrap() = -5.0; "out of range in x" }
+                            1 => { *by.iter_mut().next().unwrap() = 1e9; "out of range in y" }
+                            2 => { *bx.iter_mut().next().unwrap() = f64::NAN; "NaN in x" }
+                            _ => { *by.iter_mut().next().unwrap() = f64::NAN; "NaN in y" }
+                        };
+                        let alloc_is_err = !matches!(catch(|| ip.interp_array(&bx, &by)), Ok(Ok(_)));
+                        probe_failing_batch(out, &key, &expected, alloc_is_err, name, &|win: ArrayViewMutD<f64>| -> CallRes {
                             let w = win.into_dimensionality().ok()?;
                             Some(catch(|| ip.interp_array_into(&bx, &by, w)))
                         }, &case);
@@ -437,13 +462,14 @@ fn run_2d(job: &Job, out: &mut JobOut) {
       for (qx0, qy0) in [(1.25, 0.75), ((job.data_shape[0] - 1) as f64, (job.data_shape[1] - 1) as f64), (0.0, (job.data_shape[1] - 1) as f64)] {
         let ip = nimc::valid_build!(out, Interp2DBuilder::new(data.clone()).build(), return);
         let reference = ip.interp(qx0, qy0).expect("in range");
+        let reference = Some(&reference);
         let key = format!("{}:interp_into(dyn,{qx0},{qy0})", job.key());
         let case = |extra: Vec<(&str, Json)>| {
             let mut v = vec![("call", Json::str("Interp2D::interp_into")), ("data_shape", Json::usizes(&job.data_shape))];
             v.extend(extra);
             Json::obj(v)
         };
-        probe(out, &key, &job.data_shape[2..], 0, &reference, &|win: ArrayViewMutD<f64>| -> CallRes { Some(catch(|| ip.interp_into(qx0, qy0, win))) }, &case);
+        probe(out, &key, &job.data_shape[2..], 0, reference, &|win: ArrayViewMutD<f64>| -> CallRes { Some(catch(|| ip.interp_into(qx0, qy0, win))) }, &case);
       }
     }
 }
@@ -453,7 +479,7 @@ fn body(ctx: &Ctx) -> (Summary, Meta) {
     let mut jobs = vec![];
     let _ = quick;
     let qshapes: Vec<Vec<usize>> = vec![vec![3], vec![1], vec![2, 3], vec![3, 2], vec![2, 2], vec![2, 1, 3], vec![2, 3, 2], vec![], vec![4], vec![0], vec![2, 0]];
-    for strat in ["Linear", "CubicSpline"] {
+    for strat in ["Linear", "CubicSpline", "Linear+extrapolate", "CubicSpline+extrapolate"] {
         for ds in [vec![4], vec![4, 3], vec![4, 3, 2], vec![4, 2, 3, 2], vec![4, 2, 2], vec![4, 1], vec![4, 1, 3], vec![4, 3, 1]] {
             for qs in &qshapes {
                 jobs.push(Job { two_d: false, data_shape: ds.clone(), query_shape: qs.clone(), strat });
